@@ -27,7 +27,7 @@ func init() {
 				if o.Rule == "RW.RANGEDISPATCH" { // the supported kinds are C04's
 					return strings.Contains(o.Construct, "pointer") || strings.Contains(o.Construct, "func") || strings.Contains(o.Construct, "type parameter") || strings.Contains(o.Construct, "typeparam")
 				}
-				return o.Rule != "RW.NOLOSS" // loss of a part of a supported statement is C01's
+				return o.Rule != "RW.NOLOSS" && o.Rule != "RW.BLOCKSTATE" // loss of a part of a supported statement is C01's, compiler panics are C11's
 			})
 			c.min("RW.DISPATCH", 21)
 			c.min("RW.FIELDCOV", 8)
@@ -72,7 +72,7 @@ func init() {
 					return strings.HasSuffix(o.Construct, ": break") || strings.HasSuffix(o.Construct, ": continue") || strings.HasSuffix(o.Construct, "stacks balanced")
 				}
 				switch o.Rule {
-				case "SEQ.LAZY", "RW.DISPATCH", "RW.FIELDCOV", "RW.DEEPVISIT": // rejection and yield coverage are C12's
+				case "SEQ.LAZY", "RW.DISPATCH", "RW.FIELDCOV", "RW.DEEPVISIT", "RW.BLOCKSTATE": // rejection and yield coverage are C12's, panics C11's
 					return false
 				case "RW.TMPL.HOIST": // scoping, C03
 					return false
@@ -340,7 +340,7 @@ func init() {
 			c.guard("OPT.RULES", r.ruleOptRules)
 			c.keep(func(o Obligation) bool {
 				switch o.Rule {
-				case "RW.DISPATCH", "RW.FIELDCOV", "RW.DEEPVISIT": // rejection and yield coverage are C12's
+				case "RW.DISPATCH", "RW.FIELDCOV", "RW.DEEPVISIT", "RW.BLOCKSTATE": // rejection and yield coverage are C12's, panics C11's
 					return false
 				case "RW.TMPL.HOIST":
 					return false
